@@ -280,9 +280,9 @@ Qed.
 Lemma hexdigit_ok n : n < 16 -> is_hexdigit (hexdigit n) = true /\ unhexdigit (hexdigit n) = n.
 Proof.
   intros Hn.
-  pose proof (byte_sweep (fun n => negb (n <? 16) || (is_hexdigit (hexdigit n) && (unhexdigit (hexdigit n) =? n)))
-                (eq_refl true <: _ = true) n ltac:(lia)) as H.
-  cbv beta in H. assert (n <? 16 = true) as E by lia. rewrite E in H. cbn [negb orb] in H.
+  pose (P := fun n => negb (n <? 16) || (is_hexdigit (hexdigit n) && (unhexdigit (hexdigit n) =? n))).
+  assert (H : P n = true) by (apply byte_sweep; [vm_compute; reflexivity | lia]).
+  unfold P in H; clear P. assert (n <? 16 = true) as E by lia. rewrite E in H. cbn [negb orb] in H.
   apply andb_true_iff in H as [H1 H2]. apply N.eqb_eq in H2. split; assumption.
 Qed.
 
@@ -314,7 +314,7 @@ Lemma hex_digits_spec n :
 Proof.
   unfold hex_digits. destruct (hdf_spec _ n (fuel_ok n)) as [A B]. split; [exact A|]. split; [exact B|].
   cbn [hex_digits_fuel]. destruct (n <? 16); [discriminate|].
-  rewrite hdf_app. destruct (hex_digits_fuel _ _ []); discriminate.
+  rewrite hdf_app. intros H. apply app_eq_nil in H as [_ H]. discriminate H.
 Qed.
 
 Lemma ucode_digits luau q ds : forall v k rest,
@@ -480,4 +480,265 @@ Proof.
   - rewrite H. apply quote_bytes_decode; assumption.
   - rewrite (utf8_decode_ascii s H), (quote_chars_ascii _ s H).
     apply quote_bytes_decode; assumption.
+Qed.
+
+(** * Long brackets *)
+
+Lemma prefix_b_len p s : prefix_b p s = true -> (List.length p <= List.length s)%nat.
+Proof.
+  revert s; induction p as [|x p IH]; intros s H; cbn [List.length]; [lia|].
+  destruct s as [|y s]; cbn [prefix_b] in H; [discriminate|].
+  apply andb_true_iff in H as [_ H]. apply IH in H. cbn [List.length]. lia.
+Qed.
+
+Lemma prefix_b_app p r : prefix_b p (p ++ r) = true.
+Proof. induction p as [|x p IH]; cbn [prefix_b app]; [reflexivity|]. rewrite N.eqb_refl, IH. reflexivity. Qed.
+
+Lemma find_sub_unfold p s :
+  find_sub p s = prefix_b p s || match s with [] => false | _ :: s' => find_sub p s' end.
+Proof. destruct s; reflexivity. Qed.
+
+Lemma suffix_b_unfold p s :
+  suffix_b p s = bytes_eqb p s || match s with [] => false | _ :: s' => suffix_b p s' end.
+Proof. destruct s; reflexivity. Qed.
+
+Lemma tuc_unfold cl s :
+  take_until_closer cl s =
+  if prefix_b cl s then Some ([], skipn (List.length cl) s)
+  else match s with
+       | [] => None
+       | c :: s' => match take_until_closer cl s' with
+                    | Some (a, b) => Some (c :: a, b)
+                    | None => None
+                    end
+       end.
+Proof. destruct s; reflexivity. Qed.
+
+Lemma find_sub_len p s : find_sub p s = true -> (List.length p <= List.length s)%nat.
+Proof.
+  induction s as [|y s IH]; rewrite find_sub_unfold; intros H; apply orb_true_iff in H as [H|H].
+  - apply prefix_b_len, H.
+  - discriminate.
+  - apply prefix_b_len, H.
+  - apply IH in H. cbn [List.length]. lia.
+Qed.
+
+Lemma suffix_b_len p s : suffix_b p s = true -> (List.length p <= List.length s)%nat.
+Proof.
+  induction s as [|y s IH]; rewrite suffix_b_unfold; intros H; apply orb_true_iff in H as [H|H].
+  - apply bytes_eqb_eq in H. subst. lia.
+  - discriminate.
+  - apply bytes_eqb_eq in H. subst. lia.
+  - apply IH in H. cbn [List.length]. lia.
+Qed.
+
+Lemma find_sub_app p a b : prefix_b p b = true -> find_sub p (a ++ b) = true.
+Proof.
+  intros H. induction a as [|x a IH]; rewrite find_sub_unfold; cbn [app].
+  - rewrite H. reflexivity.
+  - rewrite IH. apply orb_true_r.
+Qed.
+
+Lemma suffix_b_app p a : suffix_b p (a ++ p) = true.
+Proof.
+  induction a as [|x a IH]; rewrite suffix_b_unfold; cbn [app].
+  - assert (bytes_eqb p p = true) as -> by (apply bytes_eqb_eq; reflexivity). reflexivity.
+  - rewrite IH. apply orb_true_r.
+Qed.
+
+Lemma closer_len i : List.length (closer i) = (i + 2)%nat.
+Proof. unfold closer. cbn [List.length]. rewrite app_length, repeat_length. cbn [List.length]. lia. Qed.
+
+Lemma half_closer_len i : List.length (half_closer i) = (i + 1)%nat.
+Proof. unfold half_closer. cbn [List.length]. rewrite repeat_length. lia. Qed.
+
+(** the level search stops at a level that has no occurrence *)
+Lemma find_level_exit : forall f s i, (List.length s < i + f)%nat ->
+  let j := find_level f s i in
+  find_sub (closer j) s = false /\ suffix_b (half_closer j) s = false.
+Proof.
+  induction f as [|f IH]; intros s i Hlen; cbn [find_level].
+  - cbv zeta. split.
+    + destruct (find_sub (closer i) s) eqn:E; [|reflexivity].
+      apply find_sub_len in E. rewrite closer_len in E. lia.
+    + destruct (suffix_b (half_closer i) s) eqn:E; [|reflexivity].
+      apply suffix_b_len in E. rewrite half_closer_len in E. lia.
+  - destruct (find_sub (closer i) s || suffix_b (half_closer i) s) eqn:E.
+    + apply IH. lia.
+    + cbv zeta. apply orb_false_iff in E. exact E.
+Qed.
+
+Lemma long_bracket_level_exit s :
+  let j := long_bracket_level s in
+  find_sub (closer j) s = false /\ suffix_b (half_closer j) s = false.
+Proof. unfold long_bracket_level. apply find_level_exit. destruct (ends_with_b s 93); lia. Qed.
+
+(** matching "="^j "]" against [b' ++ "]" ...]: the match lies inside [b'], or [b'] is "="^j *)
+Lemma eqs_match j : forall b' T,
+  prefix_b (repeat 61 j ++ [93]) (b' ++ 93 :: T) = true ->
+  prefix_b (repeat 61 j ++ [93]) b' = true \/ b' = repeat 61 j.
+Proof.
+  induction j as [|j IH]; intros b' T H; cbn [repeat app] in *.
+  - destruct b' as [|x b']; [right; reflexivity|]. left. cbn [app prefix_b] in *. exact H.
+  - destruct b' as [|x b']; cbn [app prefix_b] in H.
+    + apply andb_true_iff in H as [H _]. vm_compute in H. discriminate H.
+    + apply andb_true_iff in H as [H1 H2]. apply N.eqb_eq in H1. subst x.
+      destruct (IH _ _ H2) as [H|H].
+      * left. cbn [prefix_b]. rewrite H. reflexivity.
+      * right. rewrite H. reflexivity.
+Qed.
+
+Lemma no_early_closer i s : find_sub (closer i) s = false -> suffix_b (half_closer i) s = false ->
+  forall a b, s = a ++ b -> b <> [] -> prefix_b (closer i) (b ++ closer i) = false.
+Proof.
+  intros H1 H2 a b -> Hb.
+  destruct (prefix_b (closer i) (b ++ closer i)) eqn:E; [exfalso|reflexivity].
+  destruct b as [|x b']; [congruence|].
+  unfold closer in E at 1 2. cbn [app prefix_b] in E.
+  apply andb_true_iff in E as [Ex E]. apply N.eqb_eq in Ex. subst x.
+  apply eqs_match in E as [E|E].
+  - rewrite find_sub_app in H1; [discriminate|].
+    unfold closer. cbn [prefix_b]. rewrite E. reflexivity.
+  - subst b'. change (93 :: repeat 61 i) with (half_closer i) in H2.
+    rewrite suffix_b_app in H2. discriminate.
+Qed.
+
+Lemma tuc_exact cl : forall s,
+  (forall a b, s = a ++ b -> b <> [] -> prefix_b cl (b ++ cl) = false) ->
+  take_until_closer cl (s ++ cl) = Some (s, []).
+Proof.
+  induction s as [|c s IH]; intros H; rewrite tuc_unfold; cbn [app].
+  - pose proof (prefix_b_app cl []) as Hp. rewrite app_nil_r in Hp.
+    rewrite Hp, skipn_all. reflexivity.
+  - change (c :: s ++ cl) with ((c :: s) ++ cl). rewrite (H [] (c :: s)) by (reflexivity || discriminate).
+    cbn [app]. rewrite IH; [reflexivity|].
+    intros a b -> Hb. apply (H (c :: a) b); [reflexivity | exact Hb].
+Qed.
+
+Definition strip_nl (t2 : bytes) : bytes :=
+  match t2 with
+  | 13 :: 10 :: t' => t'
+  | 10 :: 13 :: t' => t'
+  | 10 :: t' => t'
+  | 13 :: t' => t'
+  | _ => t2
+  end.
+
+Lemma decode_long_eq t :
+  decode_long (91 :: t) =
+  let '(n, t1) := strip_eqs t 0 in
+  match t1 with
+  | 91 :: t2 => take_until_closer (closer n) (strip_nl t2)
+  | _ => None
+  end.
+Proof. reflexivity. Qed.
+
+Lemma strip_eqs_repeat i : forall n X, strip_eqs (repeat 61 i ++ 91 :: X) n = ((n + i)%nat, 91 :: X).
+Proof.
+  induction i as [|i IH]; intros n X; cbn [repeat app].
+  - rewrite Nat.add_0_r. reflexivity.
+  - change (strip_eqs (61 :: repeat 61 i ++ 91 :: X) n) with (strip_eqs (repeat 61 i ++ 91 :: X) (S n)).
+    rewrite IH. f_equal. lia.
+Qed.
+
+Lemma strip_nl_other c t : c <> 10 -> c <> 13 -> strip_nl (c :: t) = c :: t.
+Proof.
+  intros H10 H13. unfold strip_nl. destruct c as [|p]; [reflexivity|].
+  repeat (destruct p as [p|p|]; try reflexivity); congruence.
+Qed.
+
+Lemma no_cr s : existsb needs_quoted_string s = false -> forall c t, s = c :: t -> c <> 13.
+Proof.
+  intros H c t -> ->. cbn [existsb] in H. vm_compute in H. discriminate H.
+Qed.
+
+Theorem long_roundtrip : forall s t, wf_bytes s = true -> existsb needs_quoted_string s = false ->
+  write_long_bracket s = Some t -> decode_long t = Some (s, []).
+Proof.
+  intros s t Hwf Hnq H. unfold write_long_bracket in H.
+  destruct (utf8_decode s) as [cps|]; [|discriminate]. cbv zeta in H. injection H as <-.
+  set (i := long_bracket_level s).
+  pose proof (long_bracket_level_exit s) as [L1 L2]. fold i in L1, L2.
+  cbn [app]. rewrite decode_long_eq, strip_eqs_repeat. cbn [Nat.add].
+  change (93 :: repeat 61 i ++ [93]) with (closer i).
+  assert (Hstrip : strip_nl (match s with 10 :: _ => [10] | _ => [] end ++ s ++ closer i) = s ++ closer i).
+  { destruct s as [|c s'] eqn:Es.
+    - reflexivity.
+    - destruct (N.eq_dec c 10) as [->|Hc].
+      + cbn [app]. destruct s' as [|c' s'']; [reflexivity|].
+        assert (c' <> 13).
+        { intros ->. cbn [existsb] in Hnq. vm_compute in Hnq. discriminate Hnq. }
+        cbn [app]. unfold strip_nl.
+        destruct c' as [|p]; [reflexivity|].
+        repeat (destruct p as [p|p|]; try reflexivity); congruence.
+      + assert (c <> 13) by (eapply no_cr; [exact Hnq | reflexivity]).
+        assert (match c :: s' with 10 :: _ => [10] | _ => [] end = []) as ->.
+        { destruct c as [|p]; [reflexivity|].
+          repeat (destruct p as [p|p|]; try reflexivity); congruence. }
+        cbn [app]. apply strip_nl_other; assumption. }
+  rewrite Hstrip. apply tuc_exact. apply (no_early_closer i s L1 L2).
+Qed.
+
+(** * [write_string] *)
+
+Lemma decode_literal_quoted luau s :
+  decode_literal luau (write_quoted s) = decode_quoted luau (write_quoted s).
+Proof.
+  unfold write_quoted. cbv zeta. destruct (get_quote_symbol_cases s) as [-> | ->]; reflexivity.
+Qed.
+
+Lemma decode_literal_long luau t :
+  decode_literal luau (91 :: t) =
+  match decode_long (91 :: t) with
+  | Some (v, []) => Some v
+  | _ => None
+  end.
+Proof. reflexivity. Qed.
+
+Lemma write_string_single c : c < 256 -> decode_literal true (write_string [c]) = Some [c].
+Proof.
+  intros Hc.
+  pose (P := fun c => match decode_literal true (write_string [c]) with
+                      | Some r => bytes_eqb r [c]
+                      | None => false
+                      end).
+  assert (H : P c = true) by (apply byte_sweep; [vm_compute; reflexivity | exact Hc]).
+  unfold P in H; clear P.
+  destruct (decode_literal true (write_string [c])) as [r|]; [|discriminate].
+  apply bytes_eqb_eq in H. rewrite H. reflexivity.
+Qed.
+
+Lemma write_string_general c1 c2 s' :
+  write_string (c1 :: c2 :: s') =
+  let s := c1 :: c2 :: s' in
+  if negb (existsb needs_quoted_string s)
+     && Nat.leb LONG_STRING_MIN_LENGTH (List.length s)
+     && (Nat.leb QUOTED_STRING_MAX_LENGTH (List.length s)
+         || Nat.leb FORCE_LONG_STRING_NEW_LINE_THRESHOLD (count_b 10 s))
+  then match write_long_bracket s with
+       | Some t => t
+       | None => write_quoted s
+       end
+  else write_quoted s.
+Proof. reflexivity. Qed.
+
+Theorem write_string_roundtrip : forall s, wf_bytes s = true -> decode_literal true (write_string s) = Some s.
+Proof.
+  intros s Hwf.
+  assert (HQ : decode_literal true (write_quoted s) = Some s).
+  { rewrite decode_literal_quoted. apply quoted_roundtrip_luau, Hwf. }
+  destruct s as [|c1 [|c2 s']].
+  - reflexivity.
+  - apply wf_cons in Hwf as [Hc _]. apply write_string_single, Hc.
+  - rewrite write_string_general. cbv zeta.
+    remember (c1 :: c2 :: s') as s eqn:Es.
+    match goal with |- context [if ?c then _ else _] => destruct c eqn:C end; [|exact HQ].
+    destruct (write_long_bracket s) as [t|] eqn:W; [|exact HQ].
+    apply andb_true_iff in C as [C _]. apply andb_true_iff in C as [C _].
+    apply negb_true_iff in C.
+    pose proof (long_roundtrip s t Hwf C W) as D.
+    assert (exists t', t = 91 :: t') as [t' ->].
+    { unfold write_long_bracket in W. destruct (utf8_decode s); [|discriminate].
+      cbv zeta in W. injection W as <-. eexists; reflexivity. }
+    rewrite decode_literal_long, D. reflexivity.
 Qed.
